@@ -418,7 +418,17 @@ def run(ctx, rep):
     modules_are_not_left_by_return(F, rep)
     exports_are_registered_by_module_level_code(F, rep)
     names_import_supplies_what_it_binds(F, rep)
-
+    # "importers cannot reassign them": a write through the module - or through any alias of it, also one a function captured - is refused (C10's clauses)
+    from props import C10 as _c10
+    from core import Report as _Report
+    tmp = _Report("C10", rep.tier)
+    _c10.run(ctx, tmp)
+    k_ = 0
+    for o in tmp.obligations:
+        if o["key"] in ("C10.guard|reassign-module-step", "C10.guard|opassign-module-step"):
+            k_ += 1
+            rep.ob("C11.exports-read-only", o["instance"], o["status"], o["detail"], o["where"], key=o["key"].replace("C10.guard", "C11.exports-read-only", 1), fn=o.get("fn"))
+    rep.floor("C11.exports-read-only clauses", k_, 2)
 
 def rules_fn_arg(fn, op):
     """Name of the function item passed as an argument (fn item constant)."""
